@@ -35,6 +35,8 @@ def int_coef():
 
 
 def coef_st(kind):
+    if kind == "b":
+        return st.sampled_from([0, 1, 1])
     if kind == "i":
         return int_coef()
     if kind == "f":
@@ -130,7 +132,7 @@ def numeric_desc(draw, shape=None, kind=None, kinds="ifc", scalar_ok=True,
     how = draw(st.sampled_from(how_opts))
     shape = tuple(shape)
     if how == "py":
-        how = {"i": "pyint", "f": "pyfloat", "c": "pycomplex"}[kind]
+        how = {"i": "pyint", "f": "pyfloat", "c": "pycomplex", "b": "pybool"}[kind]
         if kind == "i" and draw(st.integers(0, 9)) == 0:
             how = "pybool"
     size = size_of(shape)
